@@ -118,6 +118,18 @@ ACCEPTED_TESTS = {
 }
 
 
+def test_kind(cond):
+    """'full' = rejects a zero and a non-normal (NaN, inf, subnormal) determinant; 'eq0' = rejects only an
+    exactly zero determinant (NaN == 0.0 is false); 'rank' / None otherwise."""
+    if cond == "determinant == 0.0 || !isnormal(cabs(determinant))":
+        return "full"
+    if cond in ("determinant == 0.0", "CALL == 0.0"):
+        return "eq0"
+    if cond is not None and re.fullmatch(r"rank < \w+", cond):
+        return "rank"
+    return None
+
+
 def accepted_test(cond):
     if cond is None:
         return False
